@@ -35,11 +35,12 @@ REAL = ["BPTK_Py.bptk (run_scenarios, begin_session, run_step, session_results)"
         "BPTK_Py.sdsimulation", "BPTK_Py.server.bptkServer (run, begin-session, run-step, run-steps, stream-steps, session-results, flat-session-results)",
         "BPTK_Py.util.floating_point", "BPTK_Py.modeling.model + SD DSL", "pandas", "jsonpickle", "Flask", "werkzeug test client"]
 STUB = ["SdSimulation worker threads run serially", "wall clock, uuid source", "HTTP transport"]
-ASSUMPTIONS = ["values are compared numerically after JSON parsing (a lookup can yield the integer 0 where the batch frame has 0.0)",
+ASSUMPTIONS = ["the look-back template T5 (delay of a constant) runs on the start time it was built with: the DSL writes the model's start time into the generated delay function at definition time, so T5 is not combined with run specs in the begin-session settings",
+               "values are compared numerically after JSON parsing (a lookup can yield the integer 0 where the batch frame has 0.0)",
                "clause (iii) uses the closed-form template reference with relative tolerance 1e-9",
                "stream-steps comes last in a partition (it runs to the stop time)"]
 FAULT_KINDS = []
-PROBES = ["two_managers_different_runspecs", "earlier_session_not_ended", "decimal_dt", "fractional_start", "mixed_partition", "per_step_settings", "equation_subset_without_dependencies", "two_scenarios_different_runspecs",
+PROBES = ["bystander_scenario_on_another_grid", "two_managers_different_runspecs", "earlier_session_not_ended", "decimal_dt", "fractional_start", "mixed_partition", "per_step_settings", "equation_subset_without_dependencies", "two_scenarios_different_runspecs",
           "stream_in_partition", "points_step_setting", "runspecs_in_session_settings", "flat_results_requested", "two_scenarios_in_one_session", "scenario_level_constants"]
 EXHAUSTIVE = {"quick": False, "thorough": False}
 
@@ -125,8 +126,10 @@ def generate(spec):
         # an earlier, plain session on the same object that is stepped to the end, asked for its results and never ended:
         # nothing of it may show in the session under test
         case["prior_session"] = {"flat": rng.random() < 0.5}
-    if rng.random() < 0.25 and not case.get("twin"):
+    if rng.random() < 0.25 and not case.get("twin") and template != "T5":
         # the session itself re-parameterises the scenario's run specs (begin_session settings)
+        # (not for T5: the DSL's delay() writes the model's start time into the generated function when the equation is
+        #  defined, so a look-back model is only meaningful on the start time it was built with)
         d3 = rng.choice([x for x in [1.0, 0.5, 0.25, 0.2] if x != dt])
         s3 = rng.choice([start, start, 0.0, 1.0])
         n3 = rng.choice([4, 6, 9])
@@ -320,6 +323,11 @@ def session_channel(case, res, log, want, ref):
     grid = dec_grid(session_cfg(case))
     wcfg = {"bases": [{"template": cfg["template"], "start": cfg["start"], "stop": cfg["stop"], "dt": cfg["dt"]}],
             "managers": [{"name": MGR, "base": 0, "scenarios": scenario_dicts(case)}]}
+    if case.get("second"):
+        # a scenario of the same manager that is NOT part of the session and lives on another grid: none of the session's business
+        s2 = case["second"]
+        wcfg["managers"][0]["scenarios"]["other"] = {"runspecs": {"starttime": s2["start"], "stoptime": s2["stop"], "dt": s2["dt"]}}
+        res.probe("bystander_scenario_on_another_grid")
     w = ScenarioWorld(wcfg, log, res)
     b = w.setup()
     scns = [SCN, "twin"] if case.get("twin") else [SCN]
@@ -407,6 +415,9 @@ def rest_channel(case, res, log, want, ref):
     eqs = case["equations"]
     grid = dec_grid(cfg)
     model = {"template": cfg["template"], "start": cfg["start"], "stop": cfg["stop"], "dt": cfg["dt"], "managers": {MGR: scenario_dicts(case)}}
+    if case.get("second"):
+        s2 = case["second"]
+        model["managers"][MGR]["other"] = {"runspecs": {"starttime": s2["start"], "stoptime": s2["stop"], "dt": s2["dt"]}}
     with ServerWorld({"model": model, "adapter": None, "threads": "serial"}, log, res) as w:
         w.boot()
         r = w.post("/run", {"scenario_managers": [MGR], "scenarios": [SCN], "equations": list(eqs)})
